@@ -1,10 +1,12 @@
 //! Component registry: one module per modelled component.
 pub mod eval;
+pub mod front;
 pub mod span;
 
 pub fn dispatch(comp: &str, args: &[String]) -> Option<String> {
     match comp {
         "eval" => Some(eval::handle(args)),
+        "front" => Some(front::handle(args)),
         "span" => Some(span::handle(args)),
         _ => None,
     }
